@@ -384,6 +384,7 @@ impl Session {
         // processes the leading well-formed prefix of the stream.
         let mut cmd_iter = cmds.filter_map(Result::ok).peekable();
         let mut num_adrreq = 0;
+        let mut ch_mask_ctl_valid = true;
         while let Some(cmd) = cmd_iter.next() {
             match cmd {
                 DevStatusReq(..) => {
@@ -419,12 +420,17 @@ impl Session {
                     // commands.
                     num_adrreq += 1;
 
-                    // TODO: Validate that input is not RFU
-                    let _ = region.channel_mask_update(
-                        &mut channel_mask,
-                        payload.redundancy().channel_mask_control(),
-                        payload.channel_mask(),
-                    );
+                    // A ChMaskCntl value that is RFU in this region rejects the whole block
+                    if region
+                        .channel_mask_update(
+                            &mut channel_mask,
+                            payload.redundancy().channel_mask_control(),
+                            payload.channel_mask(),
+                        )
+                        .is_none()
+                    {
+                        ch_mask_ctl_valid = false;
+                    }
 
                     // Check whether LinkADRReq commands continue...
                     if let Some(LinkADRReq(..)) = cmd_iter.peek() {
@@ -451,7 +457,8 @@ impl Session {
                         p => region.check_tx_power(p as u8),
                     };
 
-                    let cm_ack = region.channel_mask_validate(&channel_mask, dr);
+                    let cm_ack =
+                        ch_mask_ctl_valid && region.channel_mask_validate(&channel_mask, dr);
                     if cm_ack && let (Some(dr), Some(pw)) = (dr, pw) {
                         // TODO: handle nbtrans
                         configuration.data_rate = dr;
@@ -467,6 +474,7 @@ impl Session {
                         self.uplink.add_mac_command(cmd);
                     }
                     num_adrreq = 0;
+                    ch_mask_ctl_valid = true;
                 }
                 LinkCheckAns(..) => {
                     /* TODO: Payload contents are not consumed/handled
